@@ -253,6 +253,8 @@ def w_ref_writes(arg):
         want = {}
         for nm, data in tree.items():
             mt = 1_600_000_000_000_000_000 + r.randrange(10 ** 17)
+            if r.random() < 0.15:      # boundary time stamps: the epoch itself, below one second, exactly one second, 2038, beyond 32 bits
+                mt = r.choice([0, 0, 1, 999_999_999, 10 ** 9, (2 ** 31 - 1) * 10 ** 9, 2 ** 31 * 10 ** 9 + 5, 2 ** 32 * 10 ** 9 + 1])
             if legacy:
                 mt = mt // 10 ** 9 * 10 ** 9 + r.choice([0, 500_000_000, 250_000_000])   # float seconds represent these exactly
             md = {'st_mode': 0o100644, 'st_uid': 0, 'st_gid': 0, 'atime_ns': mt + 10 ** 9, 'mtime_ns': mt, 'ctime_ns': mt}
@@ -288,7 +290,9 @@ def w_ref_writes(arg):
                     continue
                 def fmt(ns):
                     return _dt.datetime.fromtimestamp(ns // 10 ** 9, tz=_dt.timezone.utc).replace(tzinfo=None).isoformat(sep=' ', timespec='seconds')
-                if cols[1] != fmt(md['mtime_ns']) or cols[2] != fmt(md['atime_ns']):
+                # the listing shows whole seconds of a value the interpreter first rounds to microseconds (datetime.fromtimestamp: round-half-even),
+                # so a fraction within half a microsecond of the next second is shown as that second — presentation, not part of the format
+                if cols[1] not in (fmt(md['mtime_ns']), fmt(md['mtime_ns'] + 500)) or cols[2] not in (fmt(md['atime_ns']), fmt(md['atime_ns'] + 500)):
                     res['violations'].append(('c14:ref-write:list-files:timestamps' + (':legacy' if legacy else ''),
                                               f'{fpath!r}: listed mtime/atime {cols[1]!r}/{cols[2]!r}, written {fmt(md["mtime_ns"])!r}/{fmt(md["atime_ns"])!r}'))
                 if cols[3] != wr.s.hash(data).hex():
@@ -363,8 +367,17 @@ def micro_ties(out, drv):
 
         def utime(self, path, times=None, *, ns=None):
             self.calls.append(('times', times) if ns is None else ('ns', ns))
-    for ks in keysets:
+    # every key set with ordinary values, then with boundary values: a time stamp of exactly 0 (the epoch: `touch -d @0`, SOURCE_DATE_EPOCH=0,
+    # archives without dates), 0 in one of the two fields only, a value below one second
+    for ks, zeros in [(ks, z) for z in ((), ('st_mtime_ns',), ('st_atime_ns',), ('st_atime_ns', 'st_mtime_ns'), ('st_atime', 'st_mtime'), ('sub',)) for ks in keysets]:
         md = {k: 1000 + 7 * i for i, k in enumerate(['st_mode', 'st_atime_ns', 'st_mtime_ns', 'st_atime', 'st_mtime', 'st_ctime']) if k in ks}
+        if zeros and not any(k in md for k in zeros) and zeros != ('sub',):
+            continue
+        for k in zeros:
+            if k in md:
+                md[k] = 0
+        if zeros == ('sub',):
+            md = {k: (v % 7 + 1 if k.endswith('_ns') else v) for k, v in md.items()}
         rec = OsRec()
         rr.os = rec
         try:
